@@ -9,7 +9,9 @@ Open Scope list_scope.
 
 (* ---- scan = the list of referrers ---- *)
 Definition refs_from (g : string) (n : nat) (l : list quad) (self : didx) (key : ref) : list didx :=
-  map fst (filter (is_referrer self key) (graph_positions_from g n l)).
+  map fst (filter (is_other_referrer self key) (graph_positions_from g n l)).
+Definition refs_in_from (g : string) (n : nat) (l : list quad) (key : ref) : list didx :=
+  map fst (filter (is_referrer key) (graph_positions_from g n l)).
 
 Definition merge_found (acc : found) (rs : list didx) : res found :=
   match rs with
@@ -26,14 +28,28 @@ Lemma scan_spec : forall l g n key self acc,
 Proof.
   induction l as [|q t IH]; intros g n key self acc; simpl; [reflexivity|].
   unfold refs_from, graph_positions_from in *. simpl.
-  unfold is_referrer at 1. simpl.
+  unfold is_other_referrer at 1. simpl.
   destruct (didx_eqb self (g, n)) eqn:Hself; simpl; [apply IH|].
   unfold refers_to at 1.
   destruct (get_ref (qo q)) as [r|]; [|apply IH].
   destruct (ref_eqb r key); [|apply IH].
   simpl. destruct acc as [|p]; [|reflexivity].
   rewrite IH. simpl.
-  destruct (map fst (filter (is_referrer self key)
+  destruct (map fst (filter (is_other_referrer self key)
+    (map (fun iq : nat * quad => (g, fst iq, snd iq)) (index_from (S n) t)))); reflexivity.
+Qed.
+
+Lemma scan_in_spec : forall l g n key acc,
+  scan_in g l n key acc = merge_found acc (refs_in_from g n l key).
+Proof.
+  induction l as [|q t IH]; intros g n key acc; simpl; [reflexivity|].
+  unfold refs_in_from, graph_positions_from in *. simpl.
+  unfold is_referrer at 1. simpl. unfold refers_to at 1.
+  destruct (get_ref (qo q)) as [r|]; [|apply IH].
+  destruct (ref_eqb r key); [|apply IH].
+  simpl. destruct acc as [|p]; [|reflexivity].
+  rewrite IH. simpl.
+  destruct (map fst (filter (is_referrer key)
     (map (fun iq : nat * quad => (g, fst iq, snd iq)) (index_from (S n) t)))); reflexivity.
 Qed.
 
@@ -45,11 +61,11 @@ Qed.
 
 Lemma scan_all_spec : forall gs key self acc,
   scan_all gs key self acc =
-  merge_found acc (flat_map (fun gl => referrers_in (fst gl) (snd gl) self key) gs).
+  merge_found acc (flat_map (fun gl => other_referrers_in (fst gl) (snd gl) self key) gs).
 Proof.
   induction gs as [|(g, l) t IH]; intros key self acc; simpl; [reflexivity|].
-  rewrite merge_found_app, scan_spec. unfold referrers_in, graph_positions, refs_from.
-  destruct (merge_found acc (map fst (filter (is_referrer self key) (graph_positions_from g 0 l))));
+  rewrite merge_found_app, scan_spec. unfold other_referrers_in, graph_positions, refs_from.
+  destruct (merge_found acc (map fst (filter (is_other_referrer self key) (graph_positions_from g 0 l))));
     simpl; auto. apply IH.
 Qed.
 
@@ -60,8 +76,8 @@ Definition found_of (o : option didx) : found :=
 Lemma unshared_at_iff : forall ds i q s,
   quad_at ds i = Some q -> get_ref (qs q) = Some s ->
   (unshared_at ds i <->
-   (List.length (referrers ds (fst i) i s) <= 1)%nat /\
-   (referrers ds (fst i) i s = [] -> forall g, qg q = Some (NBlank g) ->
+   (List.length (referrers ds (fst i) s) <= 1)%nat /\
+   (referrers ds (fst i) s = [] -> forall g, qg q = Some (NBlank g) ->
     (List.length (all_referrers ds i (RBlank g)) <= 1)%nat)).
 Proof.
   intros ds i q s Hq Hs. unfold unshared_at. split.
@@ -81,12 +97,12 @@ Proof.
   destruct (lookup_graph ds (fst i)) as [l|] eqn:El; [|discriminate].
   destruct (get_ref (qs q)) as [s|] eqn:Hs; [|discriminate].
   split; [eauto|].
-  rewrite scan_spec in H.
-  assert (Hrefs : referrers ds (fst i) i s = refs_from (fst i) 0 l i s).
+  rewrite scan_in_spec in H.
+  assert (Hrefs : referrers ds (fst i) s = refs_in_from (fst i) 0 l s).
   { unfold referrers. now rewrite El. }
   rewrite (unshared_at_iff ds i q s Hq Hs).
   unfold parent. rewrite Hq, Hs, Hrefs.
-  destruct (refs_from (fst i) 0 l i s) as [|j [|j2 rs]] eqn:Er; simpl in H.
+  destruct (refs_in_from (fst i) 0 l s) as [|j [|j2 rs]] eqn:Er; simpl in H.
   - (* no referrer inside the graph *)
     unfold find_graph_parent in H.
     destruct Hqg as [Hqg|Hqg]; rewrite Hqg in H |- *.
@@ -101,19 +117,20 @@ Proof.
   - discriminate.
 Qed.
 
-Lemma found_in_positions : forall g n l self key j,
-  In j (refs_from g n l self key) -> fst j = g /\ exists q, nth_error l (snd j - n) = Some q /\ (n <= snd j)%nat.
+Lemma found_in_positions : forall (f : didx * quad -> bool) g n l j,
+  In j (map fst (filter f (graph_positions_from g n l))) ->
+  fst j = g /\ exists q, nth_error l (snd j - n) = Some q /\ (n <= snd j)%nat.
 Proof.
-  intros g n l self key j H. unfold refs_from in H. apply in_map_iff in H.
+  intros f g n l j H. apply in_map_iff in H.
   destruct H as ((j', q) & Hj & Hin). simpl in Hj. subst j'.
   apply filter_In in Hin. destruct Hin as (Hin & _).
   apply graph_positions_from_in in Hin. destruct Hin as (A & B & C). split; [assumption|eauto].
 Qed.
 
-Lemma referrers_valid : forall ds g self key j,
-  In j (referrers ds g self key) -> exists q, quad_at ds j = Some q.
+Lemma referrers_valid : forall ds g key j,
+  In j (referrers ds g key) -> exists q, quad_at ds j = Some q.
 Proof.
-  intros ds g self key j H. unfold referrers in H.
+  intros ds g key j H. unfold referrers in H.
   destruct (lookup_graph ds g) as [l|] eqn:El; [|contradiction].
   apply found_in_positions in H. destruct H as (Hg & q & Hq & _).
   exists q. unfold quad_at. rewrite Hg, El. now rewrite Nat.sub_0_r in Hq.
@@ -134,7 +151,7 @@ Proof.
   intros ds i p Hm H. unfold parent in H.
   destruct (quad_at ds i) as [q|]; [|discriminate].
   destruct (get_ref (qs q)) as [s|]; [|discriminate].
-  destruct (referrers ds (fst i) i s) as [|j rs] eqn:Er.
+  destruct (referrers ds (fst i) s) as [|j rs] eqn:Er.
   - destruct (qg q) as [[|g|]|]; try discriminate.
     destruct (all_referrers ds i (RBlank g)) as [|j rs] eqn:Ea; [discriminate|].
     simpl in H. inversion H; subst. eapply all_referrers_valid; eauto. rewrite Ea. now left.
